@@ -42,7 +42,7 @@ PROP = {
             "commits or rolls back) and probe INSERT/UPDATE/DELETE. Families: 900 random histories (1-3 sessions + autocommit "
             "statements + 1-3 VACUUM/reopen, randomly interleaved), 800 targeted ones (rolled-back DELETE / INSERT / UPDATE, "
             "committed DELETE and reinsertion, chains of committed UPDATEs, transactions below the horizon open at VACUUM time, "
-            "readers open across it, empty tables and double VACUUM, two tables, DROP TABLE, many finished transactions + reopen, "
+            "readers open across it, empty tables and double VACUUM, two tables, DROP TABLE, many finished transactions + reopen, insert + update changing NULL-ness inside the last transaction before VACUUM, "
             "failing statements), 24 growth cases (12-20 update/VACUUM cycles on 1-300 rows, with reopen) + one of 260 cycles; thorough = 10x, "
             "cycles up to 60. Non-trivial (`nt`) = the history contains a rolled-back write (ROLLBACK, session drop, "
             "transaction cut off by VACUUM/reopen) or a superseded version (committed UPDATE or DELETE) before some VACUUM; "
